@@ -47,6 +47,9 @@ def stateful_views(tmp):
         ('sort(file)', lambda: etl.sort(a, 'k', buffersize=2, tempdir=tmp)),
         ('sort(file,reverse)', lambda: etl.sort(a, 'k', buffersize=1, reverse=True, tempdir=tmp)),
         ('sort(mem,nocache)', lambda: etl.sort(a, 'k', cache=False)),
+        ('sort(file,key=n,reverse)', lambda: etl.sort(a, 'n', reverse=True, buffersize=2, tempdir=tmp)),
+        ('sort(mem,key=(s,k))', lambda: etl.sort(a, ('s', 'k'))),
+        ('sort(file,key=s,reverse)', lambda: etl.sort(a, 's', reverse=True, buffersize=1, tempdir=tmp)),
         ('sort(file,nocache)', lambda: etl.sort(a, 'k', buffersize=2, cache=False, tempdir=tmp)),
         ('hashjoin', lambda: etl.hashjoin(a, b, key='k')),
         ('hashjoin(nocache)', lambda: etl.hashjoin(a, b, key='k', cache=False)),
@@ -74,6 +77,7 @@ def io_views(tmp):
     etl.tojson(a, p('t.jsonl'), lines=True)
     etl.totext(a, p('t.txt'), template='{k} {s}\n')
     etl.tocsv(a, p('t.csv.gz'))
+    _mem_sources()
     con = sqlite3.connect(p('t.db'))
     con.execute('create table t (k integer, s text)')
     con.executemany('insert into t values (?, ?)', a[1:])
@@ -98,8 +102,29 @@ def io_views(tmp):
         ('fromdicts(list)', lambda: etl.fromdicts([{'k': 1, 's': 'a'}, {'k': 2, 's': 'b'}])),
         ('empty', lambda: etl.empty()),
         ('memorysource csv', lambda: etl.fromcsv(etl.MemorySource(b'k,s\n1,a\n2,b\n'))),
+        ('memorysource csv (40 KB)', lambda: etl.fromcsv(_BIGCSV)),
+        ('memorysource pickle', lambda: etl.frompickle(_MEMPICKLE)),
+        ('memorysource json lines', lambda: etl.fromjson(_MEMJSONL, lines=True)),
     ]
     return V
+
+
+def _mem_sources():
+    import petl as etl
+    global _BIGCSV, _MEMPICKLE, _MEMJSONL
+    big = [['k', 's']] + [[i, 'x' * 40] for i in range(900)]
+    m = etl.MemorySource()
+    etl.tocsv(big, m)
+    _BIGCSV = etl.MemorySource(m.getvalue())          # ONE MemorySource object shared by all iterators of the view
+    m = etl.MemorySource()
+    etl.topickle([['k', 's'], [1, 'a'], [2, 'b'], [3, 'c']], m)
+    _MEMPICKLE = etl.MemorySource(m.getvalue())
+    m = etl.MemorySource()
+    etl.tojson([['k', 's'], [1, 'a'], [2, 'b'], [3, 'c']], m, lines=True)
+    _MEMJSONL = etl.MemorySource(m.getvalue())
+
+
+_BIGCSV = _MEMPICKLE = _MEMJSONL = None
 
 
 def catalogue_views():
@@ -263,6 +288,28 @@ def model_checks(chk):
     return cex
 
 
+COVER = [
+    # implementation-shaped model -> real views driven through EVERY transition of its state graph
+    ('CacheView', 'CacheView_fixed_0', ['cache']),
+    ('CacheView', 'CacheView_fixed_3', ['cache(n=3)']),
+    ('SortCache', 'SortCache_fixed_mem', ['sort(mem)', 'sort(mem,key=(s,k))']),
+    ('SortCache', 'SortCache_fixed_file', ['sort(file)', 'sort(file,key=n,reverse)', 'sort(file,key=s,reverse)']),
+    ('DictsSpill', 'DictsSpill_1', ['fromdicts(generator,sample=1)']),
+    ('DictsSpill', 'DictsSpill_5', ['fromdicts(generator)']),
+    ('RandomSrc', 'RandomSrc_private', ['randomtable']),
+]
+
+
+def edge_cover_schedules(chk):
+    from harness import graph
+    out = []
+    for module, cfg, views in COVER:
+        cover, r = graph.edge_cover(module, cfg)
+        chk.note('edge cover of %s/%s: %d transitions -> %d schedules' % (module, cfg, r.generated, len(cover)))
+        out.append((views, [graph.to_schedule(p) for p in cover]))
+    return out
+
+
 def gen_schedules(seed, full):
     r = tlc.run('Iterators', cfg='IteratorsGen2', timeout=900, workers=1, coverage=False)
     if r.error or r.violated:
@@ -356,6 +403,8 @@ def run(tier, seed):
                     chk.violation({'op': nme, 'kind': concurrency(sched)}, '%s schedule=%r (TLC counterexample of the as-found model): %s' % (nme, sched, msg),
                                   {'kind': 'schedule', 'view': nme, 'group': 'stateful', 'schedule': sched})
         check_views(chk, sv, s2 + s3, None, rng, 'stateful')
+        for names, scheds in edge_cover_schedules(chk):
+            check_views(chk, [(n, byname[n]) for n in names], scheds, None if full else 2500, rng, 'edge-cover')
         check_views(chk, io_views(tmp), s2 + s3, None if full else 60, rng, 'io')
         check_views(chk, catalogue_views(), s2 + s3, None if full else 40, rng, 'catalogue')
         traces, meta = record_traces(1500 if full else 250, seed, tmp)
